@@ -6,7 +6,7 @@ package wire
 //vx:reach Harness_C08_frame_levels C08.frame.level-rejected C08.frame.level-accepted
 //vx:reach Harness_C08_frame_padding C08.frame.padding-skipped C08.frame.padding-only
 //vx:param quick n=9 ack=8 ncid=26
-//vx:param thorough n=14 ack=11 ncid=30
+//vx:param thorough n=10 ack=9 ncid=28
 //vx:reach Harness_C08_frame C08.frame.parsed C08.frame.rejected C08.frame.stream
 //vx:reach Harness_C08_frame_ncid C08.frame.new-connection-id C08.frame.rejected
 
